@@ -103,7 +103,13 @@ fn write_workspace(root: &Path, dep_lists: &[Vec<usize>], dangling: Option<usize
             }
             std::fs::write(d.join("buildpack.toml"), t).unwrap();
             let mut p = String::from("[buildpack]\nuri = \".\"\n");
-            for j in deps {
+            // non-libcnb dependencies first and between the libcnb ones: they never become edges
+            // and must not hide the libcnb: entries that follow them
+            p.push_str("\n[[dependencies]]\nuri = \"docker://docker.io/first/dep\"\n");
+            for (k, j) in deps.iter().enumerate() {
+                if k == 1 {
+                    p.push_str("\n[[dependencies]]\nuri = \"../some/relative/path\"\n");
+                }
                 p.push_str(&format!("\n[[dependencies]]\nuri = \"libcnb:{}\"\n", id(*j)));
             }
             if dangling == Some(i) {
